@@ -65,7 +65,7 @@ def main(tier):
     rr = V.tlc(PT, cfg(d, 'recs', 'Spec', 1, ['AllPartitions']), env={'PEELRECS': rf}, timeout=3000, cont=True, mem='16g')
     ev.add_tlc('Peel records: %d graphs (%d enumerated + random)' % (len(lines), len(graphs)), rr)
     recs = json.load(open(rf))['recs']
-    nontriv = sum(int(m.group(2)) for m in re.finditer(r'<<"STAT", "peel", (\d+), (\d+)>>', rr.out))
+    nontriv = sum(v[0] for v in V.stat(rr.out, 'peel'))
     for inv, st in V.violating_states(rr):
         for (i, t) in st.get('bad', []):
             x = recs[i - 1]
